@@ -64,6 +64,23 @@ theorem lookup_perm {es es' : List (Idx × α)} (d : α) (i : Idx)
       exact (List.Perm.map (fun e : Idx × α => e.1) hp).mem_iff.mpr h
     rw [lookup_of_not_mem hk, lookup_of_not_mem hk']
 
+/-- filtering on the index: a kept index reads the same value, a dropped one reads the default -/
+theorem lookup_filter (p : Idx → Bool) (es : List (Idx × α)) (d : α) (j : Idx) :
+    lookup (es.filter fun e => p e.1) d j = if p j then lookup es d j else d := by
+  induction es with
+  | nil => simp
+  | cons e es ih =>
+    rw [List.filter_cons]
+    by_cases hp : p e.1 = true
+    · rw [if_pos hp, lookup_cons, lookup_cons, ih]
+      by_cases he : e.1 = j
+      · rw [if_pos he, if_pos he]; rw [he] at hp; rw [if_pos hp]
+      · rw [if_neg he, if_neg he]
+    · rw [if_neg hp, ih, lookup_cons]
+      by_cases he : e.1 = j
+      · rw [he] at hp; rw [if_neg hp, if_neg hp]
+      · rw [if_neg he]
+
 /-- **The coordinate-rewrite lemma.** `g` rewrites (or drops) stored coordinates, `h` maps a result
 index back to the operand index it reads.  If `h` inverts `g` wherever `g` keeps an entry, and `g`
 keeps and hits every result index `j` of interest, then looking `j` up in the rewritten list is
